@@ -234,6 +234,14 @@ fn regex_case(r1: &super::c14::Re, r2: &super::c14::Re, s: &str, l: &mut Local) 
 }
 
 pub fn check_case(case: &Case, l: &mut Local) -> Result<(), Fail> {
+    if case.sub == "kinds" {
+        let seed = case.extra.get("gap_seed").and_then(|p| p.as_u64()).unwrap_or(1);
+        return kinds_case(ID, &case.g, &case.toks(), seed, l).map_err(|(_, f)| f);
+    }
+    if case.sub == "long-stream" {
+        let n = case.extra.get("n").and_then(|x| x.as_u64()).unwrap_or(512) as usize;
+        return stream_long_case(n, l);
+    }
     if case.sub == "regex" {
         let re = |k: &str| serde_json::from_value::<super::c14::Re>(case.extra.get(k).cloned().unwrap_or(serde_json::Value::Null)).map_err(|e| Fail::new("C03/replay", format!("bad pattern: {}", e)));
         return regex_case(&re("r1")?, &re("r2")?, &case.input, l);
@@ -268,10 +276,76 @@ pub fn decode(tape: &[u32]) -> (G, Vec<char>, Vec<char>) {
     (g, input, alpha)
 }
 
+
+// ---------------------------------------------------------------------------------------------
+// "every token was consumed" on a LONG Stream input: 512-token batches, iterators that (like a lexer) cannot say how many
+// items are left (size_hint lower bound 0), plain / boxed streams. a^n is accepted by just('a').repeated(), a^n b is not.
+
+fn stream_long_case(n: usize, l: &mut Local) -> Result<(), Fail> {
+    use chumsky::input::Stream;
+    use chumsky::prelude::*;
+    type E<'a> = extra::Err<Rich<'a, char>>;
+    let mk = |extra: bool| -> Vec<char> {
+        let mut v = vec!['a'; n];
+        if extra {
+            v.push('b');
+        }
+        v
+    };
+    for extra in [false, true] {
+        let toks = mk(extra);
+        let want_clean = !extra;
+        macro_rules! run {
+            ($name:expr, $mkinput:expr) => {{
+                let p = just::<_, _, E>('a').repeated().collect::<Vec<char>>();
+                let mkf = || $mkinput;
+                let r = crate::run::quietly(|| {
+                    let a = p.parse(mkf());
+                    let clean_a = a.has_output() && !a.has_errors();
+                    let len = a.output().map(|o| o.len());
+                    let c = p.check(mkf());
+                    (clean_a, len, c.has_output() && !c.has_errors())
+                });
+                l.evals += 2;
+                match r {
+                    Ok((ca, len, cc)) if ca == want_clean && cc == want_clean && (!want_clean || len == Some(n)) => l.bump("long_stream_runs"),
+                    other => {
+                        return Err(Fail::new("C03/long-stream", format!("just('a').repeated().collect() over {} with {} 'a's{}: (parse error-free, items, check error-free) = {:?}, but the grammar {} the entire input", $name, n, if extra { " followed by 'b'" } else { "" }, other.ok(), if want_clean { "matches" } else { "does not match" })));
+                    }
+                }
+            }};
+        }
+        run!("Stream::from_iter(Vec::into_iter())", Stream::from_iter(toks.clone().into_iter()));
+        run!("Stream::from_iter(iter.filter(..)) [size_hint lower bound 0]", Stream::from_iter(toks.clone().into_iter().filter(|_| true)));
+        run!("Stream::from_iter(from_fn(..)) [size_hint (0, None)]", {
+            let mut it = toks.clone().into_iter();
+            Stream::from_iter(std::iter::from_fn(move || it.next()))
+        });
+        run!("Stream::from_iter(iter.filter(..)).boxed()", Stream::from_iter(toks.clone().into_iter().filter(|_| true)).boxed());
+    }
+    Ok(())
+}
+
 pub fn run(tier: Tier, seed: u64) -> i32 {
     let ctx = Ctx::new(ID, tier, seed);
     ctx.replay_corpus(&check_case);
-    let gs = small_grammars(true);
+    let mut gs = small_grammars(true);
+    {
+        // fixed-size collections whose item source ENDS SHORT without any parser having failed (a cap below N, a spent
+        // or_not, an into_iter() over too few items): "a result without output always carries at least one error"
+        let j = |s: &str| G::Just(s.into());
+        let rep = |item: G, lo: u8, hi: Option<u8>, sink: Sink| G::Rep(Rep { item: b(item), sep: None, leading: false, trailing: false, lo, hi, sink, cfg: false, ctxb: 0 });
+        for n in 1..=3u8 {
+            for k in 0..n {
+                gs.push(rep(j("a"), 0, Some(k), Sink::Exactly(n)));
+                gs.push(G::Then(b(rep(j("a"), k, Some(k), Sink::Exactly(n))), b(G::OrNot(b(j("b"))))));
+                gs.push(G::Rep(Rep { item: b(j("a")), sep: Some(b(j("b"))), leading: false, trailing: false, lo: 0, hi: Some(k), sink: Sink::Exactly(n), cfg: false, ctxb: 0 }));
+            }
+            gs.push(G::IntoIter(b(rep(G::Any, 0, None, Sink::Vec)), 2 + n));
+            gs.push(G::IntoIter(b(G::OrNot(b(j("a")))), 2 + n.min(2)));
+        }
+        gs.retain(wf);
+    }
     let strings = all_strings(&['a', 'b', 'c'], ctx.pick(4, 5));
     ctx.with_local(|l| {
         l.add("exhaustive_grammars", gs.len() as u64);
@@ -284,6 +358,17 @@ pub fn run(tier: Tier, seed: u64) -> i32 {
         }
         Ok(())
     });
+    // long Stream inputs around the 512-token batch boundaries
+    {
+        let ns: Vec<usize> = vec![0, 1, 2, 510, 511, 512, 513, 514, 1023, 1024, 1025, 1536, 2049];
+        ctx.par_jobs(&ns, |n, l| {
+            stream_long_case(*n, l).map_err(|f| {
+                let mut c = Case::new(ID, "long-stream", &G::Empty, &[]);
+                c.extra = serde_json::json!({ "n": n });
+                (c, f)
+            })
+        });
+    }
     // regex leaves (feature regex): every pair of pattern templates x every short string
     {
         let res = super::c14::regex_templates();
@@ -305,7 +390,13 @@ pub fn run(tier: Tier, seed: u64) -> i32 {
     ctx.par_random(n, 180, 3, |tape, l| {
         let (g, input, alpha) = decode(tape);
         debug_assert!(wf(&g), "ill-formed: {}", render(&g));
-        check_inner("rand", &g, &input, &alpha, l)
+        check_inner("rand", &g, &input, &alpha, l)?;
+        // one case in sixteen (grammars without memoized / labelled / map_err nodes): every other input representation
+        // too (C10's comparison against the slice baseline) -- "every token was consumed" on Streams, IoInput, mapped inputs
+        if tape.first().copied().unwrap_or(0) % 16 == 0 && !g.any_node(&|n| matches!(n, G::Memo(_) | G::Labelled(..) | G::MapErr(..) | G::Lazy(_))) {
+            kinds_case(ID, &g, &input, 1 + (tape.len() as u64 % 5), l)?;
+        }
+        Ok(())
     });
     ctx.finish(&check_case, RULE, ASSUMPTIONS, &|l| {
         for k in ["reference_matched_proper_prefix", "clean_accept", "extensions_tried", "lazy_accepted_proper_prefix", "regex_clean_accept", "regex_matched_proper_prefix"] {
